@@ -1,3 +1,421 @@
 package main
 
-func runMalformed(seed uint64, thorough bool) {}
+import (
+	"context"
+	"encoding/asn1"
+	"fmt"
+	"time"
+
+	"github.com/IBM/TSS/mpc/ps"
+)
+
+// C10 part of the engine: malformed input at every PS parser / verification entry point, under recover.
+
+type jMal struct {
+	Kind  string `json:"kind"` // "malformed"
+	Entry string `json:"entry"`
+	Class string `json:"class"` // raw | structured
+	Input string `json:"input"`
+	Panic bool   `json:"panic"`
+	Err   bool   `json:"err"`
+	What  string `json:"what"`
+}
+
+// ASN.1 mirrors
+type rawBlindSignature struct {
+	CorrectFormProof []byte
+	CM               []byte
+	MPrime           []byte
+	U                []byte
+	A, B             [][]byte
+}
+type rawBlindCorrectProof struct {
+	X, Y [][]byte
+	S    []byte
+	Z    []byte
+	D, F [][]byte
+}
+type rawSigPok struct{ Data [][]byte }
+type rawPoKForm struct {
+	X     [][]byte
+	Y     []byte
+	Gamma []byte
+	Phi   []byte
+}
+type rawSignature struct{ A, B []byte }
+
+func mutations(r *prng, valid []byte, n int) [][]byte {
+	res := [][]byte{{}, {0}, {0x30}, {0x30, 0x00}, {0x30, 0x80}, {0x30, 0x84, 0xff, 0xff, 0xff, 0xff}}
+	for i := 0; i < len(valid) && i < 12; i++ {
+		res = append(res, append([]byte{}, valid[:i]...))
+	}
+	for i := 0; i < n && len(valid) > 0; i++ {
+		m := append([]byte{}, valid...)
+		switch r.intn(4) {
+		case 0:
+			m = m[:r.intn(len(m))]
+		case 1:
+			m[r.intn(len(m))] ^= byte(1 << uint(r.intn(8)))
+		case 2: // a length / tag byte near the front (ASN.1 headers)
+			k := len(m)
+			if k > 16 {
+				k = 16
+			}
+			m[r.intn(k)] = byte(r.intn(256))
+		case 3:
+			m = append(m, r.bytes(1+r.intn(4))...)
+		}
+		res = append(res, m)
+	}
+	return res
+}
+
+func short(b []byte) string {
+	if len(b) > 40 {
+		return fmt.Sprintf("%x...(%d bytes)", b[:40], len(b))
+	}
+	return fmt.Sprintf("%x", b)
+}
+
+func mustMarshal(v interface{}) []byte {
+	b, err := asn1.Marshal(v)
+	if err != nil {
+		panic(err)
+	}
+	return b
+}
+
+// vector surgery: drop the last element, drop all, duplicate the last, replace one by garbage / by nothing
+func vecVariants(v [][]byte) map[string][][]byte {
+	res := map[string][][]byte{}
+	if len(v) > 0 {
+		res["short"] = v[:len(v)-1]
+		res["long"] = append(append([][]byte{}, v...), v[len(v)-1])
+		g := append([][]byte{}, v...)
+		g[0] = []byte{1, 2, 3}
+		res["garbage0"] = g
+		e := append([][]byte{}, v...)
+		e[len(e)-1] = []byte{}
+		res["emptylast"] = e
+	}
+	res["none"] = nil
+	return res
+}
+
+func runMalformed(seed uint64, thorough bool) {
+	r := newPRNG(seed)
+	n := 50
+	if thorough {
+		n = 500
+	}
+	d := runDKG(3, 2, 2, r.next(), identityOrder(3))
+	if !d.ok() {
+		emit(jMal{Kind: "malformed", Entry: "setup", What: "DKG failed"})
+		return
+	}
+	s := runSession(d, patterns[2][0], r.next(), false, false)
+	if !s.okAll {
+		emit(jMal{Kind: "malformed", Entry: "setup", What: "session failed"})
+		return
+	}
+	pokRaw, _, _, _, _ := provePoK(s, []uint16{1, 2})
+	verifier, _ := newVerifier(d)
+	signer := d.parties[0]
+	try := func(entry, class string, in []byte, f func() error) {
+		err, pan, what := guard(f)
+		emit(jMal{Kind: "malformed", Entry: entry, Class: class, Input: short(in), Panic: pan, Err: err != nil, What: what})
+	}
+	sign := func(class string, raw []byte) {
+		try("ps.TPS.Sign", class, raw, func() error { _, e := signer.Sign(context.Background(), raw); return e })
+	}
+	verify := func(class string, raw []byte) {
+		try("ps.Verifier.Verify", class, raw, func() error { return verifier.Verify(raw) })
+	}
+
+	// ---- raw byte mutations ----
+	for _, m := range mutations(r, s.reqRaw, n) {
+		sign("raw", m)
+	}
+	for _, m := range mutations(r, pokRaw, n) {
+		verify("raw", m)
+	}
+	for _, m := range mutations(r, d.tpkRaw[0], n) {
+		m := m
+		try("ps.Verifier.Init", "raw", m, func() error { return (&ps.Verifier{}).Init(curve, d.L, m) })
+		try("ps.Prover.Init", "raw", m, func() error { return (&ps.Prover{Logger: nolog{}}).Init(curve, d.L, m, ids(d.N)) })
+	}
+	for _, m := range mutations(r, s.sigs[0], n) {
+		m := m
+		try("ps.Prover.UnBlind", "raw", m, func() error { _, e := s.prover.UnBlind(1, m, s.secret); return e })
+	}
+	for _, m := range mutations(r, d.shares[0], n) {
+		m := m
+		try("ps.TPS.SetShareData", "raw", m, func() error {
+			t := &ps.TPS{Curve: curve, Party: 1, Logger: nolog{}, MessageLength: d.L}
+			t.Init(ids(d.N), d.T, func([]byte, bool, uint16) {})
+			return t.SetShareData(m)
+		})
+	}
+
+	// ---- structured: blind signature requests with wrong vector lengths / unparsable components ----
+	var rbs rawBlindSignature
+	var rproof rawBlindCorrectProof
+	asn1.Unmarshal(s.reqRaw, &rbs)
+	asn1.Unmarshal(rbs.CorrectFormProof, &rproof)
+	for name, v := range vecVariants(rbs.A) {
+		x := rbs
+		x.A = v
+		sign("structured A:"+name, mustMarshal(x))
+	}
+	for name, v := range vecVariants(rbs.B) {
+		x := rbs
+		x.B = v
+		sign("structured B:"+name, mustMarshal(x))
+	}
+	for fi, field := range []string{"X", "Y", "D", "F"} {
+		src := [][][]byte{rproof.X, rproof.Y, rproof.D, rproof.F}[fi]
+		for name, v := range vecVariants(src) {
+			p := rproof
+			switch field {
+			case "X":
+				p.X = v
+			case "Y":
+				p.Y = v
+			case "D":
+				p.D = v
+			case "F":
+				p.F = v
+			}
+			x := rbs
+			x.CorrectFormProof = mustMarshal(p)
+			sign("structured proof."+field+":"+name, mustMarshal(x))
+		}
+	}
+	{
+		x := rbs
+		x.A, x.B = nil, nil
+		p := rawBlindCorrectProof{S: rproof.S, Z: rproof.Z}
+		x.CorrectFormProof = mustMarshal(p)
+		sign("structured all vectors empty", mustMarshal(x))
+		x = rbs
+		x.CM = []byte{}
+		sign("structured CM empty", mustMarshal(x))
+		x = rbs
+		x.U = []byte{7}
+		sign("structured U garbage", mustMarshal(x))
+		x = rbs
+		x.CorrectFormProof = []byte{}
+		sign("structured proof empty", mustMarshal(x))
+	}
+
+	// ---- structured: proofs of knowledge ----
+	var rp rawSigPok
+	var rform rawPoKForm
+	asn1.Unmarshal(pokRaw, &rp)
+	asn1.Unmarshal(rp.Data[0], &rform)
+	for k := 0; k <= 7; k++ {
+		x := rawSigPok{}
+		for i := 0; i < k; i++ {
+			x.Data = append(x.Data, rp.Data[i%len(rp.Data)])
+		}
+		verify(fmt.Sprintf("structured Data:%d elements", k), mustMarshal(x))
+	}
+	for name, v := range vecVariants(rform.X) {
+		f := rform
+		f.X = v
+		x := rawSigPok{Data: append([][]byte{mustMarshal(f)}, rp.Data[1:]...)}
+		verify("structured psi.X:"+name, mustMarshal(x))
+	}
+	{
+		f := rform
+		f.X = append(append([][]byte{}, rform.X...), rform.X...)
+		x := rawSigPok{Data: append([][]byte{mustMarshal(f)}, rp.Data[1:]...)}
+		verify("structured psi.X:doubled", mustMarshal(x))
+		for i := 1; i < 5; i++ {
+			x := rawSigPok{Data: append([][]byte{}, rp.Data...)}
+			x.Data[i] = []byte{9, 9}
+			verify(fmt.Sprintf("structured Data[%d] garbage", i), mustMarshal(x))
+		}
+	}
+
+	// ---- structured: public material handed to the prover / verifier ----
+	var tpk thresholdPK
+	asn1.Unmarshal(d.tpkRaw[0], &tpk)
+	var key xys
+	asn1.Unmarshal(tpk.TPK, &key)
+	shortKey := mustMarshal(xys{X: key.X, Ys: key.Ys[:1]})
+	noYKey := mustMarshal(xys{X: key.X})
+	longKey := mustMarshal(xys{X: key.X, Ys: append(append([][]byte{}, key.Ys...), key.Ys[0])})
+	tpkVariants := map[string]thresholdPK{
+		"fewer public keys than parties": {TPK: tpk.TPK, PublicKeys: tpk.PublicKeys[:1]},
+		"no public keys":                 {TPK: tpk.TPK},
+		"tpk with one Y":                 {TPK: shortKey, PublicKeys: tpk.PublicKeys},
+		"tpk without Y":                  {TPK: noYKey, PublicKeys: tpk.PublicKeys},
+		"tpk with an extra Y":            {TPK: longKey, PublicKeys: tpk.PublicKeys},
+		"party keys with one Y":          {TPK: tpk.TPK, PublicKeys: [][]byte{shortKey, shortKey, shortKey}},
+		"party keys without Y":           {TPK: tpk.TPK, PublicKeys: [][]byte{noYKey, noYKey, noYKey}},
+		"party keys with an extra Y":     {TPK: tpk.TPK, PublicKeys: [][]byte{longKey, longKey, longKey}},
+		"all keys short":                 {TPK: shortKey, PublicKeys: [][]byte{shortKey, shortKey, shortKey}},
+	}
+	for name, tv := range tpkVariants {
+		raw := mustMarshal(tv)
+		// the whole client flow with this material: Init, Blind, UnBlind of an honest signature, prove, verify
+		try("ps.Prover flow", "structured "+name, raw, func() error {
+			p := &ps.Prover{Logger: nolog{}}
+			if err := p.Init(curve, d.L, raw, ids(d.N)); err != nil {
+				return err
+			}
+			req, secret := p.Blind(msgOf(patterns[2][0]))
+			sg, err := signer.Sign(context.Background(), req.Bytes())
+			if err != nil {
+				return err
+			}
+			w, err := p.UnBlind(1, sg, &secret)
+			if err != nil {
+				return err
+			}
+			pok := p.ProveKnowledgeOfSignature(&secret, []uint16{1, 2}, []ps.SignatureWitness{w, w})
+			return verifier.Verify(pok.Bytes())
+		})
+		try("ps.Verifier flow", "structured "+name, raw, func() error {
+			v := &ps.Verifier{}
+			if err := v.Init(curve, d.L, raw); err != nil {
+				return err
+			}
+			return v.Verify(pokRaw)
+		})
+	}
+	try("ps.Prover.UnBlind", "structured unknown party", nil, func() error { _, e := s.prover.UnBlind(9, s.sigs[0], s.secret); return e })
+	try("ps.Prover.UnBlind", "structured signature of garbage points", nil, func() error {
+		_, e := s.prover.UnBlind(1, mustMarshal(rawSignature{A: []byte{1}, B: []byte{2}}), s.secret)
+		return e
+	})
+
+	// ---- DKG messages at a node: every tag, raw and structured payloads, idle and finished instances ----
+	share := mustMarshal(xys{X: key.X[:32], Ys: [][]byte{key.X[:32], key.X[:32], key.X[:32]}})
+	payloads := map[string][]byte{
+		"empty":                 {},
+		"share ok":              share,
+		"share with one y":      mustMarshal(xys{X: key.X[:32], Ys: [][]byte{key.X[:32]}}),
+		"share without y":       mustMarshal(xys{X: key.X[:32]}),
+		"share with an extra y": mustMarshal(xys{X: key.X[:32], Ys: [][]byte{key.X[:32], key.X[:32], key.X[:32], key.X[:32]}}),
+		"share with empty x":    mustMarshal(xys{Ys: [][]byte{{}, {}, {}}}),
+		"public key ok":         tpk.PublicKeys[1],
+		"public key with one Y": shortKey,
+		"public key without Y":  noYKey,
+		"public key extra Y":    longKey,
+		"public key garbage X":  mustMarshal(xys{X: []byte{1, 2, 3}, Ys: key.Ys}),
+		"public key garbage Y":  mustMarshal(xys{X: key.X, Ys: [][]byte{{1}, {2}, {3}}}),
+		"commitment 32 bytes":   r.bytes(32),
+		"commitment 1 byte":     {7},
+	}
+	var msgs []struct {
+		name string
+		m    []byte
+	}
+	for tag := 0; tag <= 4; tag++ {
+		for name, p := range payloads {
+			msgs = append(msgs, struct {
+				name string
+				m    []byte
+			}{fmt.Sprintf("tag %d %s", tag, name), append([]byte{byte(tag)}, p...)})
+		}
+		for _, m := range mutations(r, tpk.PublicKeys[1], n/5) {
+			msgs = append(msgs, struct {
+				name string
+				m    []byte
+			}{fmt.Sprintf("tag %d raw", tag), append([]byte{byte(tag)}, m...)})
+		}
+	}
+	msgs = append(msgs, struct {
+		name string
+		m    []byte
+	}{"no bytes at all", []byte{}}, struct {
+		name string
+		m    []byte
+	}{"nil", nil})
+	for _, state := range []string{"idle", "finished"} {
+		for _, mm := range msgs {
+			mm := mm
+			var t *ps.TPS
+			if state == "idle" {
+				t = &ps.TPS{Curve: curve, Party: 1, Logger: nolog{}, MessageLength: d.L}
+				t.Init(ids(d.N), d.T, func([]byte, bool, uint16) {})
+			} else {
+				t = d.parties[0]
+			}
+			try("ps.TPS.ClassifyMsg/"+state, mm.name, mm.m, func() error { _, _, e := t.ClassifyMsg(mm.m); return e })
+			try("ps.TPS.OnMsg/"+state, mm.name, mm.m, func() error { t.OnMsg(mm.m, 2, false); t.OnMsg(mm.m, 3, true); return nil })
+		}
+	}
+	// a DKG in which one party sends a share / a public key with too few components: the others must not crash
+	for _, what := range []string{"short share", "short public key"} {
+		what := what
+		try("ps.TPS.KeyGen with a misbehaving peer", what, nil, func() error { return dkgWithBadPeer(what, r.next()) })
+	}
+}
+
+// dkgWithBadPeer: three parties, party 3's outgoing share (or revealed key) is replaced by one with fewer components.
+// The honest parties must end with an error or keep waiting until the context expires - not panic.
+func dkgWithBadPeer(what string, seed uint64) error {
+	N, T, L := 3, 2, 2
+	parties := make([]*ps.TPS, N)
+	for i := range parties {
+		parties[i] = &ps.TPS{Curve: curve, Party: uint16(i + 1), Logger: nolog{}, MessageLength: L}
+	}
+	for i := 0; i < N; i++ {
+		i := i
+		parties[i].Init(ids(N), T, func(msg []byte, isBroadcast bool, to uint16) {
+			cp := append([]byte{}, msg...)
+			if i == 2 && len(cp) > 1 {
+				var v xys
+				if _, err := asn1.Unmarshal(cp[1:], &v); err == nil && len(v.Ys) > 1 {
+					if (what == "short share" && cp[0] == 1) || (what == "short public key" && cp[0] == 3) {
+						v.Ys = v.Ys[:1]
+						cp = append([]byte{cp[0]}, mustMarshal(v)...)
+					}
+				}
+			}
+			if isBroadcast {
+				for j := 0; j < N; j++ {
+					if j != i {
+						parties[j].OnMsg(cp, uint16(i+1), true)
+					}
+				}
+			} else {
+				parties[int(to)-1].OnMsg(cp, uint16(i+1), false)
+			}
+		})
+	}
+	setRand(seed)
+	ctx, cancel := context.WithTimeout(context.Background(), timeoutBadPeer)
+	defer cancel()
+	errs := make(chan error, N)
+	pans := make(chan string, N)
+	for i := 0; i < N; i++ {
+		i := i
+		go func() {
+			defer func() {
+				if r := recover(); r != nil {
+					pans <- fmt.Sprintf("party %d: %v", i+1, r)
+				}
+			}()
+			_, err := parties[i].KeyGen(ctx)
+			errs <- err
+		}()
+	}
+	var firstErr error
+	for k := 0; k < N; k++ {
+		select {
+		case p := <-pans:
+			panic(p)
+		case e := <-errs:
+			if e != nil && firstErr == nil {
+				firstErr = e
+			}
+		}
+	}
+	return firstErr
+}
+
+const timeoutBadPeer = 400 * time.Millisecond
